@@ -29,6 +29,15 @@ pub const FAULTS: &[(&str, &str)] = &[
     ("instruction-inside-dseg", ".dseg\n\u{1}nop\n.cseg"),
     ("undefined-symbol-in-elif", ".if 0\nnop\n\u{1}.elif undefined_sym_q\nnop\n.endif"),
     ("undef-of-unknown-alias", ".def al_q = r20\n.undef al_q\n\u{1}.undef al_q"),
+    // an undefined symbol where its value cannot influence the result
+    ("undefined-symbol-right-of-decided-logical-and", "ldi r16, 0 && undefined_sym_q"),
+    ("undefined-symbol-right-of-decided-logical-or", ".db 1 || undefined_sym_q, 2"),
+    ("undefined-symbol-times-zero", ".dw 0 * undefined_sym_q"),
+    ("undefined-symbol-inside-function", "ldi r16, low(undefined_sym_q)"),
+    ("undefined-symbol-in-set-right-of-decided-operator", ".set sw_q = 0 && undefined_sym_q"),
+    ("undefined-symbol-in-if-right-of-decided-operator", "\u{1}.if 1 || undefined_sym_q\nnop\n.endif"),
+    ("undefined-symbol-in-second-operand", "out undefined_sym_q, r16"),
+    ("undefined-symbol-in-displacement", "ldd r16, Y+undefined_sym_q"),
     // duplicate labels that bind the same address (nothing is emitted between them)
     ("duplicate-label-adjacent", "\u{1}dup_q:\n\u{1}Dup_Q:\nnop"),
     ("duplicate-label-same-address", "\u{1}dupb_q: .equ dq_q = 1\n; nothing emitted here\n.message \"between\"\n\u{1}dupb_q: nop"),
@@ -183,7 +192,7 @@ pub fn test_fault(c: &FaultCase, ev: &mut Ev) -> Result<(), Violation> {
         let mut ok_lines = b.lines.clone();
         let n = b.expect_lines[0];
         ok_lines[n - 1] = String::new();
-        if b.kind == "undefined-symbol-in-if" {
+        if b.kind == "undefined-symbol-in-if" || b.kind == "undefined-symbol-in-if-right-of-decided-operator" {
             ok_lines[n + 1] = String::new();
         }
         let ctrl = join(&ok_lines, c.crlf);
@@ -222,14 +231,36 @@ pub fn test_fault(c: &FaultCase, ev: &mut Ev) -> Result<(), Violation> {
     let stext = join(&shifted, c.crlf);
     match build(&stext) {
         Outcome::Err(e) => {
-            if want.iter().any(|n| has_token(&e, &n.to_string())) {
-                Ok(())
-            } else {
-                Err(Violation { sig: format!("c15:{}:line-not-named", b.kind), what: format!("[shifted by {}] fault on line {:?}, error text: {}", k, want, crate::run::truncate(&e, 300)), replay: json!({"kind": "error_names_line", "src": stext, "lines": want}) })
+            if !want.iter().any(|n| has_token(&e, &n.to_string())) {
+                return Err(Violation { sig: format!("c15:{}:line-not-named", b.kind), what: format!("[shifted by {}] fault on line {:?}, error text: {}", k, want, crate::run::truncate(&e, 300)), replay: json!({"kind": "error_names_line", "src": stext, "lines": want}) });
             }
         }
-        o => Err(Violation { sig: format!("c15:{}:{}", b.kind, if o.is_panic() { "panic" } else { "accepted" }), what: format!("[shifted] {}", o.brief()), replay: Check::MustFail { src: stext, token: None }.to_json() }),
+        o => return Err(Violation { sig: format!("c15:{}:{}", b.kind, if o.is_panic() { "panic" } else { "accepted" }), what: format!("[shifted] {}", o.brief()), replay: Check::MustFail { src: stext, token: None }.to_json() }),
     }
+    // the same text (blank lines at its top included) as a file: as the main file, and as a file
+    // included from the second line of another one — the number is the line's number in its own file
+    if ev.evaluations % 4 == 2 {
+        ev.class("fault-in-a-file");
+        let dir = crate::run::scratch_dir().join(format!("c15-{:?}", std::thread::current().id()).replace(['(', ')'], "_"));
+        let _ = std::fs::create_dir_all(&dir);
+        let main = dir.join("main.asm");
+        let outer = dir.join("outer.asm");
+        let _ = std::fs::write(&main, &stext);
+        let _ = std::fs::write(&outer, "nop\n.include \"main.asm\"\nnop\n");
+        for (variant, path) in [("main-file", &main), ("included-file", &outer)] {
+            match crate::run::build_file(path.clone(), Default::default()) {
+                Outcome::Err(e) => {
+                    // the scratch path itself contains digits: look at the text without it
+                    let e2 = e.replace(&dir.to_string_lossy().to_string(), "<dir>");
+                    if !want.iter().any(|n| has_token(&e2, &n.to_string())) {
+                        return Err(Violation { sig: format!("c15:{}:line-not-named:{}", b.kind, variant), what: format!("[{} with {} blank lines at its top] fault on line {:?}, error text: {}", variant, k, want, crate::run::truncate(&e2, 300)), replay: json!({"kind": "error_names_line_in_file", "src": stext, "lines": want, "included": variant == "included-file"}) });
+                    }
+                }
+                o => return Err(Violation { sig: format!("c15:{}:{}:{}", b.kind, if o.is_panic() { "panic" } else { "accepted" }, variant), what: format!("[{}] {}", variant, o.brief()), replay: json!({"kind": "error_names_line_in_file", "src": stext, "lines": want, "included": variant == "included-file"}) }),
+            }
+        }
+    }
+    Ok(())
 }
 
 #[derive(Clone, Debug)]
@@ -451,6 +482,26 @@ pub fn replay(v: &serde_json::Value) -> Option<Result<(), String>> {
                 o => Err(format!("expected a successful build, got {}", o.brief())),
             })
         }
+        "error_names_line_in_file" => {
+            let src = v.get("src")?.as_str()?;
+            let want: Vec<u64> = v.get("lines")?.as_array()?.iter().filter_map(|x| x.as_u64()).collect();
+            let dir = crate::run::scratch_dir().join("c15-replay");
+            let _ = std::fs::create_dir_all(&dir);
+            let _ = std::fs::write(dir.join("main.asm"), src);
+            let _ = std::fs::write(dir.join("outer.asm"), "nop\n.include \"main.asm\"\nnop\n");
+            let path = dir.join(if v.get("included").and_then(|x| x.as_bool()).unwrap_or(false) { "outer.asm" } else { "main.asm" });
+            Some(match crate::run::build_file(path, Default::default()) {
+                Outcome::Err(e) => {
+                    let e2 = e.replace(&dir.to_string_lossy().to_string(), "<dir>");
+                    if want.iter().any(|n| has_token(&e2, &n.to_string())) {
+                        Ok(())
+                    } else {
+                        Err(format!("error text does not name line {:?}: {}", want, e2))
+                    }
+                }
+                o => Err(format!("expected an error value, got {}", o.brief())),
+            })
+        }
         "message_orders" => {
             let src = v.get("src")?.as_str()?;
             let orders = v.get("orders")?.as_array()?.clone();
@@ -527,5 +578,5 @@ pub fn run(ctx: &Ctx) -> Result<Ev, String> {
 }
 
 pub fn rule() -> String {
-    "fault leg: a valid program of 100 padding lines + 20–59 generated line groups (instructions, labels, data, .equ, .set, comments, blank lines, taken/untaken conditionals with garbage) in which every literal is below 100, so that the three-digit line number of the fault cannot occur otherwise; exactly one injected fault of 13 kinds (syntax error, unknown mnemonic/macro, operand of the wrong kind, immediate / data value / branch out of range, undefined symbol in an instruction / data directive / .set / .if, duplicate label) at a generated position, LF or CRLF; the error text must contain the line number as a stand-alone decimal token (either definition for a duplicate label) and, after k blank lines are inserted above, the number + k; every 16th case also checks that the program without the fault builds. Message leg: .message/.warning at top level, in taken and untaken arms and in an EEPROM block, .error at top level / taken arm / untaken arm: images equal those of the program with the directives blanked, the message list has exactly the assembled ones in source order with their own line numbers, .error fails the build exactly when assembled; messages issued from macro bodies (defined before / after use, called twice, nested) must come in the textual order of their lines or in the order of assembly, with their own line numbers. Non-trivial = a fault with another line of the same family elsewhere in the program, a message program with ≥2 assembled messages and a conditional, or an assembled .error; distinct = distinct program text".into()
+    "fault leg: a valid program of 100 padding lines + 20–59 generated line groups (instructions, labels, data, .equ, .set, comments, blank lines, taken/untaken conditionals with garbage) in which every literal is below 100, so that the three-digit line number of the fault cannot occur otherwise; exactly one injected fault of 13 kinds (syntax error, unknown mnemonic/macro, operand of the wrong kind, immediate / data value / branch out of range, undefined symbol in an instruction / data directive / .set / .if, duplicate label) at a generated position, LF or CRLF; the error text must contain the line number as a stand-alone decimal token (either definition for a duplicate label) and, after k blank lines are inserted above, the number + k — through build_str and, for every fourth case, with that text as the main file of build_file and as a file included from another one; every 16th case also checks that the program without the fault builds. Message leg: .message/.warning at top level, in taken and untaken arms and in an EEPROM block, .error at top level / taken arm / untaken arm: images equal those of the program with the directives blanked, the message list has exactly the assembled ones in source order with their own line numbers, .error fails the build exactly when assembled; messages issued from macro bodies (defined before / after use, called twice, nested) must come in the textual order of their lines or in the order of assembly, with their own line numbers. Non-trivial = a fault with another line of the same family elsewhere in the program, a message program with ≥2 assembled messages and a conditional, or an assembled .error; distinct = distinct program text".into()
 }
